@@ -310,7 +310,8 @@ func solveAll(prelude string, opaque map[string]string, frs []*FuncResult, lemma
 		}
 	}
 	for _, l := range lemmas {
-		o := &Obligation{Name: "lemma:" + l.Name, Kind: "lemma", Func: "spec", Props: l.Props, Desc: "specification-level lemma"}
+		// every lemma is its own unit (the prefix rule of the baseline works per unit)
+		o := &Obligation{Name: "lemma:" + l.Name, Kind: "lemma", Func: "lemma:" + l.Name, Props: l.Props, Desc: "specification-level lemma"}
 		results = append(results, &SolveResult{Obl: o, Status: "unsat"})
 		extra := ""
 		for _, r := range l.Reveal {
@@ -411,7 +412,14 @@ func solveOne(o *Obligation, file string, cfg solveConfig) *SolveResult {
 			}
 		}
 	}
+	if o.Kind == "lemma" {
+		// specification-level lemmas: which solver succeeds varies a lot; race them all at once
+		first = append([]solverSpec{}, solvers...)
+	}
 	t1 := cfg.timeoutS
+	if o.Kind == "lemma" && t1 < 240 && !cfg.stage1Only(o) {
+		t1 = 240 // inductive steps over the recursive specification functions: generous limit, they are few
+	}
 	if cfg.stage1Only(o) && t1 > 3 {
 		t1 = 3
 	}
